@@ -30,6 +30,7 @@ static char g_replay[200];
 static const char *g_testkeys = "/repo/testkeys";
 static BN_CTX *bnctx;
 static int g_verbose_case;
+static const char *g_variant;
 
 int32 __wrap_psGetEntropy(unsigned char *bytes, uint32 size, void *userPtr)
 {
@@ -72,6 +73,7 @@ static void viol(const char *scheme, const char *cls, const char *fmt, ...)
     char key[160], msg[3000];
     va_list ap; va_start(ap, fmt); vsnprintf(msg, sizeof msg, fmt, ap); va_end(ap);
     snprintf(key, sizeof key, "c11:%s:%s", scheme, cls);
+    vf_statf(1, "viol_%s_%s", scheme, g_variant ? g_variant : cls);
     vf_violation(key, g_replay, "%s", msg);
 }
 /* one evaluated case */
@@ -79,6 +81,7 @@ static void rec(const char *scheme, const char *keylabel, const char *variant, c
 {
     vf_stat("cases", 1);
     vf_statf(1, "cases_%s", scheme);
+    g_variant = variant;
     vf_distinct("%s|%s|%s|%s", scheme, keylabel, variant, pos ? pos : "");
     if (g_verbose_case) fprintf(stderr, "CASE %s key=%s variant=%s pos=%s\n", scheme, keylabel, variant, pos ? pos : "");
 }
@@ -222,6 +225,7 @@ static void run_unit(void *arg)
         snprintf(g_replay, sizeof g_replay, "s%llu/%s#%d", (unsigned long long) vf_seed, u->id, ci);
         seed_all(u->id, ci + 1);
         ERR_clear_error();
+        g_variant = NULL;
         u->fn(u, ci);
     }
 }
